@@ -227,7 +227,7 @@ def mass_accumulation(ctx, rep, clause):
     rep.floor('ACC', 'additive mod_mass contributions in mass()', n_mod, 3)
     # every place a modification can sit contributes an additive term: the source of each term is read off the loops
     # (or generator) that enclose it
-    sources = term_sources(f, 'mod_mass', [a.value for a in augs])
+    sources = term_sources(f, 'mod_mass', None, program)
     for kind in SOURCE_KINDS:
         ob(rep, 'ACC', MASS, f'modifications from {kind} contribute an additive term', kind in sources,
            f'{len(sources.get(kind, []))} term(s)', f'no `+= mod_mass(...)` term iterates {kind}: modifications written '
@@ -253,42 +253,177 @@ SOURCE_KINDS = ('static rule on N-Term', 'static rule on C-Term', 'static rule o
                 'unknown_mods', 'nterm_mods', 'cterm_mods', 'internal_mods', 'intervals')
 
 
-def term_sources(f, callee: str, roots=None):
-    """{source kind: [call nodes]} for every call of `callee` in f (under `roots` when given): where the
-    modification handed to the resolver comes from, read off the enclosing loops / generators"""
-    c = Canon(f.node)
-    parents = {}
-    for node in ast.walk(f.node):
-        for ch in ast.iter_child_nodes(node):
-            parents[id(ch)] = node
+FIELD_KINDS = ('labile_mods', 'unknown_mods', 'nterm_mods', 'cterm_mods', 'internal_mods', 'intervals')
+
+
+class _Provenance:
+    """which modification sources can an expression draw its elements from?  A small collection-flow analysis inside
+    one function (and the private helpers of its module): attribute reads of the annotation's fields, .values() /
+    .items() / .get(), loop and comprehension variables, list building (append / extend), generator helpers
+    (`yield` / `yield from`), static rule maps with their N-Term / C-Term / residue keys."""
+
+    def __init__(self, program, f, depth=0, sites=None):
+        self.program, self.f, self.depth = program, f, depth
+        self.c = Canon(f.node)
+        self._busy = set()
+        self.sites = sites if sites is not None else {}   # kind -> [(function, attribute node that reads the field)]
+        self.params = {p_.name for p_ in f.params}
+        self.adds = {}
+        for n in ast.walk(f.node):
+            if isinstance(n, ast.Call) and isinstance(n.func, ast.Attribute) and n.func.attr in ('append', 'extend', 'add') \
+                    and isinstance(n.func.value, ast.Name) and n.args:
+                self.adds.setdefault(n.func.value.id, []).append(n.args[0])
+
+    def keys_of(self, e) -> set:
+        """constant strings a key expression can be"""
+        if isinstance(e, ast.Constant) and isinstance(e.value, str):
+            return {e.value}
+        if isinstance(e, ast.Name):
+            out = set()
+            for kind, payload in self.c.bindings.get(e.id, []):
+                src = payload if kind == 'assign' else payload[0]
+                if kind == 'each':
+                    src = self.c.resolve(src)
+                    if isinstance(src, ast.Call) and isinstance(src.func, ast.Attribute) and \
+                            src.func.attr in ('items', 'keys') and (kind != 'each' or payload[1] in ((), (0,))):
+                        src = src.func.value   # iterating a literal dict: its keys
+                    if isinstance(src, (ast.Tuple, ast.List, ast.Set)):
+                        out |= {x.value for x in src.elts if isinstance(x, ast.Constant)}
+                    if isinstance(src, ast.Dict):
+                        out |= {x.value for x in src.keys if isinstance(x, ast.Constant)}
+                elif isinstance(src, ast.AST):
+                    out |= self.keys_of(src)
+            return out
+        return set()
+
+    def of(self, e) -> set:
+        if e is None:
+            return set()
+        if isinstance(e, ast.Attribute):
+            if e.attr in FIELD_KINDS:
+                self.sites.setdefault(e.attr, []).append((self.f, e))
+                return {e.attr}
+            if e.attr == 'static_mods':
+                return {'static'}
+            if e.attr == 'mods':
+                inner = self.of(e.value)
+                return {'intervals'} if 'intervals' in inner else inner
+            return self.of(e.value)
+        if isinstance(e, ast.Subscript):
+            return self.of(e.value)
+        if isinstance(e, ast.Call):
+            fn = e.func
+            if isinstance(fn, ast.Attribute) and fn.attr in ('values', 'items', 'keys', 'copy'):
+                r = self.of(fn.value)
+                return {'static rule on residues' if x == 'static' else x for x in r}
+            if isinstance(fn, ast.Attribute) and fn.attr in ('get', 'pop') and e.args:
+                r = self.of(fn.value)
+                if 'static' in r:
+                    ks = self.keys_of(e.args[0])
+                    out = {f'static rule on {k}' for k in ks if k in ('N-Term', 'C-Term')}
+                    return out or {'static rule on residues'}
+                return r
+            if isinstance(fn, ast.Name) and fn.id == 'parse_static_mods':
+                return {'static'}
+            if isinstance(fn, ast.Name) and fn.id in ('list', 'tuple', 'sorted', 'reversed', 'iter', 'enumerate', 'zip',
+                                                       'deepcopy', 'set') or norm_stmt(fn) in ('copy.deepcopy', 'copy.copy'):
+                out = set()
+                for a in e.args:
+                    out |= self.of(a)
+                return out
+            if isinstance(fn, ast.Name) and self.depth < 2:
+                g = self.program.find_func(f'{self.f.module.name}:{fn.id}')
+                if g is not None and g.fq != self.f.fq and fn.id.startswith('_'):
+                    sub = _Provenance(self.program, g, self.depth + 1, self.sites)
+                    out = set()
+                    for y in ast.walk(g.node):
+                        if isinstance(y, (ast.Yield, ast.YieldFrom)) and y.value is not None:
+                            out |= sub.of(y.value)
+                        if isinstance(y, ast.Return) and y.value is not None:
+                            out |= sub.of(y.value)
+                    return out
+            return set()
+        if isinstance(e, (ast.GeneratorExp, ast.ListComp, ast.SetComp)):
+            out = self.of(e.elt)
+            for g_ in e.generators:
+                out |= self.of(g_.iter)
+            return out
+        if isinstance(e, (ast.Tuple, ast.List, ast.Set)):
+            out = set()
+            for x in e.elts:
+                out |= self.of(x)
+            return out
+        if isinstance(e, ast.IfExp):
+            return self.of(e.body) | self.of(e.orelse)
+        if isinstance(e, ast.BoolOp):
+            out = set()
+            for v in e.values:
+                out |= self.of(v)
+            return out
+        if isinstance(e, ast.Name):
+            if e.id in self._busy:
+                return set()
+            if e.id in self.params and e.id not in self.c.bindings:
+                return {f'param:{e.id}'}
+            self._busy.add(e.id)
+            try:
+                out = set()
+                for kind, payload in self.c.bindings.get(e.id, []):
+                    src = payload if kind in ('assign', 'aug') else payload[0]
+                    if isinstance(src, ast.AST):
+                        r = self.of(src)
+                        if kind in ('each', 'unpack') and 'static' in r:
+                            # iterating the rule map itself: the residue rules (terminal keys are skipped or fetched
+                            # by .get())
+                            r = (r - {'static'}) | {'static rule on residues'}
+                        out |= r
+                for a in self.adds.get(e.id, []):
+                    out |= self.of(a)
+                return out
+            finally:
+                self._busy.discard(e.id)
+        return set()
+
+
+def term_sources(f, callee: str, roots=None, program=None, with_sites=False):
+    """{source kind: [call nodes]} for every call of `callee` in f and in the private helpers of its module that f
+    calls (a helper that resolves what it is handed takes the provenance of the argument at the call site): where the
+    modification handed to the resolver comes from"""
+    prov = _Provenance(program, f)
     sources = {}
-    pool = roots if roots is not None else [f.node]
-    for root in pool:
-        for call in [x for x in ast.walk(root) if isinstance(x, ast.Call) and isinstance(x.func, ast.Name)
-                     and x.func.id == callee]:
-            chain = []
-            cur = call
-            while id(cur) in parents:
-                cur = parents[id(cur)]
-                if isinstance(cur, ast.GeneratorExp):
-                    chain += [norm_stmt(c.resolve(g.iter)) for g in cur.generators]
-                if isinstance(cur, ast.For):
-                    chain.append(norm_stmt(c.resolve(cur.iter)))
-            txt = ' <- '.join(chain)
-            kind = None
-            if "get('N-Term')" in txt:
-                kind = 'static rule on N-Term'
-            elif "get('C-Term')" in txt:
-                kind = 'static rule on C-Term'
-            elif 'parse_static_mods' in txt or 'static_mods' in txt:
-                kind = 'static rule on residues'
-            else:
-                for fld in ('labile_mods', 'unknown_mods', 'nterm_mods', 'cterm_mods', 'internal_mods', 'intervals'):
-                    if fld in txt:
-                        kind = fld
-                        break
-            sources.setdefault(kind or f'? {txt}', []).append(call)
-    return sources
+
+    def add(kinds, call):
+        kinds = {k for k in kinds if k != 'static' and not k.startswith('param:')} or \
+            ({'static rule on residues'} if 'static' in kinds else set())
+        for k in kinds or {f'? {norm_stmt(call)[:60]}'}:
+            sources.setdefault(k, []).append(call)
+
+    def resolver_params(g, depth=0):
+        """parameters of helper g whose elements reach `callee` inside g"""
+        pg = _Provenance(program, g, 1, prov.sites)
+        out = set()
+        for call in [x for x in ast.walk(g.node) if isinstance(x, ast.Call) and isinstance(x.func, ast.Name)
+                     and x.func.id == callee and x.args]:
+            out |= {k[len('param:'):] for k in pg.of(call.args[0]) if k.startswith('param:')}
+        return out
+
+    for call in [x for x in ast.walk(f.node) if isinstance(x, ast.Call) and isinstance(x.func, ast.Name)]:
+        if call.func.id == callee and call.args:
+            add(prov.of(call.args[0]), call)
+        elif call.func.id.startswith('_') and call.func.id != callee:
+            g = program.find_func(f'{f.module.name}:{call.func.id}')
+            if g is None or g.fq == f.fq:
+                continue
+            rp = resolver_params(g)
+            names = [p_.name for p_ in g.params]
+            for i, a in enumerate(call.args):
+                if i < len(names) and names[i] in rp:
+                    add(prov.of(a), call)
+            for kw in call.keywords:
+                if kw.arg in rp:
+                    add(prov.of(kw.value), call)
+            # a generator helper that yields the modifications itself is followed by _Provenance.of
+    return (sources, prov.sites) if with_sites else sources
 
 
 def _is_count_of_sequence(f, name: str) -> bool:
